@@ -39,12 +39,13 @@ package action
 //@   letold A = val(transferAmount)
 //@   loop 0 invariant[base] 0 <= idx && idx <= len(feesInfo) && fees != nil && !isnil(fees.Total)
 //@   loop 0 invariant[base] len(fees.Values) <= idx
+//@   loop 0 invariant[base] val(fees.Total) >= 0
 //@   loop 0 invariant[C04]  len(fees.Values) == nposUpTo(A, feesInfo, idx)
 //@   loop 0 invariant[base] oneCoin5(fees.Values)
 //@   loop 0 invariant[C04]  !mulOvfUpTo(A, feesInfo, idx)
 //@   loop 0 invariant[C04]  val(fees.Total) == sumUpTo(A, feesInfo, idx)
 //@   loop 0 invariant[C04]  payUpTo(bank, core.ModuleAddress, fees.Values, len(fees.Values)) == feePayUpTo(bank, A, transferDenom, feesInfo, idx)
-//@   ensures[base]  err == nil ==> result != nil && !isnil(result.Total) && len(result.Values) <= 5
+//@   ensures[base]  err == nil ==> result != nil && !isnil(result.Total) && len(result.Values) <= 5 && val(result.Total) >= 0
 //@   ensures[base]  err == nil ==> oneCoin5(result.Values)
 //@   ensures[C04]   err == nil ==> val(result.Total) == sum5(A, feesInfo)
 //@   ensures[C04]   err == nil ==> len(result.Values) == npos5(A, feesInfo)
